@@ -110,6 +110,9 @@ func Load(dir string, overlay map[string][]byte) (*Program, error) {
 		if !InModule(fn) {
 			continue
 		}
+		if fn.Synthetic != "" && (strings.Contains(fn.Synthetic, "wrapper") || strings.Contains(fn.Synthetic, "thunk")) {
+			continue // promoted-method / bound-method wrappers are not source functions
+		}
 		P.Funcs = append(P.Funcs, fn)
 	}
 	for _, fn := range P.Funcs {
